@@ -210,8 +210,9 @@ class Builder(ABC):
             return traj
         finally:
             # Remove the context: this only exists during the simulation of a
-            # trajectory.
-            del self.ctx
+            # trajectory. (If creating the context failed, there is no context
+            # to remove, and the original error must propagate.)
+            self.__dict__.pop('ctx', None)
 
     def _iterate_mass(self) -> Trajectory:
         """Iterate on starting mass to minimize residual fuel mass."""
